@@ -95,6 +95,11 @@ class Linear(Transform):
             raise TypeError("Mode must be boolean.")
         self.using_cache = mode
 
+    def _load_from_state_dict(self, *args, **kwargs):
+        # Newly loaded parameters make a cached weight / inverse / logabsdet stale.
+        self.cache.invalidate()
+        super()._load_from_state_dict(*args, **kwargs)
+
     def weight_and_logabsdet(self):
         # To be overridden by subclasses if it is more efficient to compute the weight matrix
         # and its logabsdet together.
